@@ -137,6 +137,8 @@ struct Q<'a> {
     e: Env<'a>,
     pos: &'a [usize],
     idx: &'a [usize],
+    /// a Rank9 whose backend has at least one bit beyond the length (Rank9 documents rank_unchecked(len) as valid then)
+    spare_bit: bool,
 }
 
 fn full<S>(c: &mut Case, s: &S, q: &Q)
@@ -145,6 +147,7 @@ where
 {
     obs_counts(c, s, &q.e);
     obs_rank(c, s, &q.e, q.pos);
+    obs_rank_unchecked(c, s, &q.e, q.pos, q.spare_bit);
     obs_index(c, s, &q.e, q.idx);
 }
 
@@ -154,6 +157,7 @@ where
 {
     obs_counts(c, s, &q.e);
     obs_rank(c, s, &q.e, q.pos);
+    obs_rank_unchecked(c, s, &q.e, q.pos, q.spare_bit);
 }
 
 fn norank<S>(c: &mut Case, s: &S, q: &Q)
@@ -329,7 +333,32 @@ fn one_vector(c: &mut Case, v: &Variant, len: usize, p: Pat, tail: Tail, nrand: 
     let idx = index_positions(c.rng(), len, nrand);
     let vname = &v.name;
     let what = || format!("structure {} over len={} pattern={} tail={}: bits {}", vname, len, p.name(), tail.name(), m.show());
-    let q = Q { e: Env { m: &m, what: &what }, pos: &pos, idx: &idx };
+    let q = Q { e: Env { m: &m, what: &what }, pos: &pos, idx: &idx, spare_bit: v.name.contains("Rank9") && bv.as_ref().len() * 64 > sux::traits::BitLength::len(&bv) };
+    // the ranking primitive of the bit vector itself (what the counters of every structure are
+    // completed with): any valid hint, however far back, gives the prefix count
+    if len > 0 && c.rng().random_range(0..8u32) == 0 {
+        use sux::traits::RankHinted;
+        let r = catch(|| {
+            for &p in pos.iter().filter(|&&p| p < len).take(40) {
+                let hw = match p % 3 {
+                    0 => 0,
+                    1 => p / 64,
+                    _ => (p / 64) * (p % 7) / 7,
+                };
+                let hint_rank = m.rank(hw * 64);
+                let got = unsafe { RankHinted::<64>::rank_hinted(&bv, p, hw, hint_rank) };
+                if got != m.rank(p) {
+                    return Some(format!("BitVec::rank_hinted({}, {}, {}) = {}, model {}", p, hw, hint_rank, got, m.rank(p)));
+                }
+            }
+            None
+        });
+        match r {
+            Ok(None) => {}
+            Ok(Some(d)) => c.fail("rank_hinted", "mismatch", "", &format!("{}; {}", d, what())),
+            Err(msg) => c.fail("rank_hinted", "panic", &msg, &format!("BitVec::rank_hinted panicked; {}", what())),
+        }
+    }
     run_variant(c, v, bv, &q);
     if c.want_input {
         desc.push_str(&format!("[len={} pattern={} tail={} bits={}] ", len, p.name(), tail.name(), m.show()));
@@ -403,7 +432,7 @@ fn main() {
                 let idx: Vec<usize> = (0..16).map(|_| c.rng().random_range(0..len)).collect();
                 let vname = &v.name;
                 let what = || format!("structure {} over len={} pattern={} tail={}: bits {}", vname, len, p.name(), tail.name(), m.show());
-                let q = Q { e: Env { m: &m, what: &what }, pos: &pos, idx: &idx };
+                let q = Q { e: Env { m: &m, what: &what }, pos: &pos, idx: &idx, spare_bit: v.name.contains("Rank9") && bv.as_ref().len() * 64 > sux::traits::BitLength::len(&bv) };
                 run_variant(c, v, bv, &q);
                 c.nontrivial();
                 c.describe(|| format!("len={} pattern={} tail={} bits={}", len, p.name(), tail.name(), m.show()));
@@ -506,7 +535,7 @@ fn main() {
                     idx.extend([0, sb - 1, sb, sb + 1, len - 1]);
                     let vname = &v.name;
                     let what = || format!("structure {} over {}", vname, m.show());
-                    let q = Q { e: Env { m: &m, what: &what }, pos: &pos, idx: &idx };
+                    let q = Q { e: Env { m: &m, what: &what }, pos: &pos, idx: &idx, spare_bit: v.name.contains("Rank9") && bv.as_ref().len() * 64 > sux::traits::BitLength::len(&bv) };
                     run_variant(c, v, bv, &q);
                     c.nontrivial();
                     c.describe(|| m.show());
